@@ -372,6 +372,16 @@ func vc27List(r *vRand, pool []basics.Address, prefer []basics.Address, max int,
 				l = append(l, a)
 			}
 		}
+		if r.Intn(4) == 0 && len(pool) > 0 && len(l) < max { // plus one arbitrary (often near-miss) member
+			x := pool[r.Intn(len(pool))]
+			dup := skip[x]
+			for _, a := range l {
+				dup = dup || a == x
+			}
+			if !dup {
+				l = append(l, x)
+			}
+		}
 		for i := range l { // any order
 			j := r.Intn(len(l))
 			l[i], l[j] = l[j], l[i]
